@@ -47,10 +47,36 @@ def eval_clause(ex, f, env):
     ex.spec_mode += 1
     try:
         r = ex.run_function(info, bound, f.__globals__, None)
+    except PyRaise as pr:
+        ex.notes.append(f"clause {info.qualname} raised {type(pr.exc).__name__}: counted as not holding")
+        return False
     finally:
         ex.spec_mode = saved
     t = ex.truth_value(r)
     return t
+
+
+def _glob_slot(ex, dotted):
+    modname, _, name = dotted.rpartition(".")
+    mod = ex.world.modules[modname]
+    return (id(mod.__dict__), name), mod, name
+
+
+def bind_globals_old(ex, c, env, fresh):
+    for dotted, kind in c.globals_in.items():
+        slot, mod, name = _glob_slot(ex, dotted)
+        if fresh:
+            ex.glob_overlay[slot] = make_value(ex, kind, name)
+            ex.inputs["old_" + name] = ex.glob_overlay[slot]
+        env["old_" + name] = ex.glob_overlay.get(slot, mod.__dict__.get(name))
+
+
+def bind_globals_new(ex, c, env, havoc):
+    for dotted, kind in c.globals_in.items():
+        slot, mod, name = _glob_slot(ex, dotted)
+        if havoc:
+            ex.glob_overlay[slot] = make_value(ex, kind, name)
+        env["new_" + name] = ex.glob_overlay.get(slot, mod.__dict__.get(name))
 
 
 def make_value(ex, kind, name):
@@ -116,8 +142,11 @@ def apply(ex, c, info, fn, bound, cls, closure_env, selfobj):
 
 def apply_now(ex, c, info, bound):
     ex.called_contracts.add(info.key)
+    bound = dict(bound)
+    bind_globals_old(ex, c, bound, False)
     if c.requires is not None:
-        ex.check(f"call:{info.key}/requires", eval_clause(ex, c.requires, bound))
+        tag = f"[{' '.join(c.props)}]" if c.props else ""
+        ex.check(f"call:{info.key}/requires{tag}", eval_clause(ex, c.requires, bound))
     excs = list(c.raises_only) if c.raises_only else []
     k = ex.choose(1 + len(excs), tag=f"call:{info.key}")
     ex.assuming += 1
@@ -125,6 +154,7 @@ def apply_now(ex, c, info, bound):
         if k == 0:
             result = c.make_result(ex, bound) if c.make_result else make_value(ex, c.returns, "ret_" + info.qualname)
             env = dict(bound, result=result)
+            bind_globals_new(ex, c, env, True)
             for n, f in c.ensures:
                 ex.assume(eval_clause(ex, f, env))
             return result
@@ -153,10 +183,12 @@ def verify_body(ex, c, info, fn, bound=None):
                 raise Unsupported(f"{c.key}: contract declares no kind for parameter '{p}'")
             bound[p] = make_value(ex, c.args[p], p)
     ex.inputs = dict(bound)
+    genv = {}
+    bind_globals_old(ex, c, genv, True)
     if c.requires is not None:
         ex.assuming += 1
         try:
-            ex.assume(eval_clause(ex, c.requires, bound))
+            ex.assume(eval_clause(ex, c.requires, dict(bound, **genv)))
         finally:
             ex.assuming -= 1
     selfobj = bound.get("self") if cls is not None else None
@@ -167,12 +199,14 @@ def verify_body(ex, c, info, fn, bound=None):
         if c.raises_only is not None:
             ok = any(issubclass(E, a) for a in c.raises_only)
             ex.check("raises_only", ok, detail=f"raised {E.__name__}: {pr.exc}")
-        env = dict(bound, raised=pr.exc)
+        env = dict(bound, raised=pr.exc, **genv)
+        bind_globals_new(ex, c, env, False)
         for n, exc, clause in c.raises:
             if any(k.__name__ == exc for k in E.__mro__):
                 ex.check(n, eval_clause(ex, clause, env))
         raise
-    env = dict(bound, result=result)
+    env = dict(bound, result=result, **genv)
+    bind_globals_new(ex, c, env, False)
     for n, clause in c.ensures:
         ex.check(n, eval_clause(ex, clause, env))
     return result
